@@ -164,6 +164,8 @@ fn cross_process_leg(p: &dyn Property, thorough: bool, seed: u64, total: u64, m:
         for (i, s, mut f) in o.found {
             if let Some(obj) = f.case.as_object_mut() {
                 obj.insert("variant".into(), json!("os"));
+                obj.insert("leg_nworkers".into(), json!(nw));
+                obj.insert("leg_total".into(), json!(xh));
             }
             m.found.push((i, s, f));
         }
@@ -302,6 +304,7 @@ pub fn check(p: &dyn Property, thorough: bool, meta: Meta) -> i32 {
         by_class.entry(f.class.clone()).or_default().push((i, s, f));
     }
     let mut violations = 0;
+    let mut unreproduced = 0;
     let mut known_hits: BTreeSet<String> = BTreeSet::new();
     let mut reported: Vec<Value> = Vec::new();
     let rpdir = std::env::var("VERIF_REPLAY_DIR").unwrap_or(format!("{}/replays", root));
@@ -345,9 +348,14 @@ pub fn check(p: &dyn Property, thorough: bool, meta: Meta) -> i32 {
         });
         write_json(&path, &file).expect("write replay");
         let mut ok = verify_replay(&vexe, &path);
-        if !ok && !os_variant {
+        if !ok && min.case["kind"] != "xproc" {
             // the failure needs the history of its worker process: replay the
             // worker's whole run sequence up to the failing run
+            let (nw, total) = if os_variant {
+                (first.case["leg_nworkers"].as_u64().unwrap_or(nw), first.case["leg_total"].as_u64().unwrap_or(total))
+            } else {
+                (nw, total)
+            };
             let w = idx % nw;
             let file = json!({
                 "property": p.id(),
@@ -359,6 +367,7 @@ pub fn check(p: &dyn Property, thorough: bool, meta: Meta) -> i32 {
                 "violation": first.detail,
                 "case": {"kind": "prefix", "worker": w, "nworkers": nw, "total": total, "upto": idx,
                          "failing_case": first.case},
+                "variant": if os_variant { "os" } else { "sim" },
                 "replay": "exact: re-executes the worker's run sequence up to the failing run (the failure depends on process history)",
             });
             write_json(&path, &file).expect("write replay");
@@ -366,10 +375,11 @@ pub fn check(p: &dyn Property, thorough: bool, meta: Meta) -> i32 {
         }
         if !ok {
             eprintln!(
-                "HARNESS: finding of class {} (run {}) does not reproduce from its replay file {}; treating as harness error",
+                "HARNESS: finding of class {} (run {}) does not reproduce from its replay file {}; not reported as a violation",
                 class, idx, path
             );
-            return 2;
+            unreproduced += 1;
+            continue;
         }
         crate::say!(
             "VIOLATION property={} replay={} class={} occurrences={} detail={}",
@@ -420,7 +430,8 @@ pub fn check(p: &dyn Property, thorough: bool, meta: Meta) -> i32 {
         },
         "assumptions": meta.assumptions,
         "wall_s": wall,
-        "violations": violations
+        "violations": violations,
+        "unreproduced_findings": unreproduced
     });
     let evdir = std::env::var("VERIF_EVIDENCE_DIR").unwrap_or(format!("{}/evidence", root));
     std::fs::create_dir_all(&evdir).ok();
@@ -436,6 +447,9 @@ pub fn check(p: &dyn Property, thorough: bool, meta: Meta) -> i32 {
     );
     if violations > 0 {
         1
+    } else if unreproduced > 0 {
+        // findings that cannot be replayed are a harness problem, never a verdict
+        2
     } else {
         0
     }
